@@ -2090,7 +2090,7 @@ class PseudoNetCDFFile(PseudoNetCDFSelfReg, object):
 
         # a coordinate name that is no variable (renamed, or registered ahead
         # of time with setCoords(..., missing='ignore')) is not asked for
-        varkeys = varkeys + [
+        varkeys = list(varkeys) + [
             k for k in self.getCoords()
             if k not in varkeys and k in self.variables
         ]
